@@ -224,8 +224,11 @@ lg = jnp.concatenate(tuple(jnp.where(m, d.logits, -jnp.inf) for d, m in zip(self
     # ---------------------------------------------------------------- C16.6 multi-discrete: the sampled law is the product law that is scored
     # "with a key it samples from the same distribution whose log-probability it reports": for multi-discrete actions the reported
     # log-probability is the sum over independent components, so the sample must draw every component with its own key split.
-    from .C15 import check_product_law
+    from .C15 import check_product_law, check_thin_wrappers
     check_product_law(s, "C16.6", methods=("sample", "log_prob", "mode"))
+    # the single-factor laws (Categorical, Bernoulli, Normal, ...) sample and score through the one wrapped distreqx law: none overrides
+    # sample / log_prob / sample_and_log_prob / mode on its own
+    check_thin_wrappers(s, "C16.6")
     # C16.3b every policy / action-head class can be instantiated (its constructor assigns every declared field)
     from .util import fields_initialised
     fields_initialised(s, "C16.3", [c for m_ in sorted(P.modules.values(), key=lambda m__: m__.name) if m_.name.startswith("lerax.policy") for c in m_.classes.values()],
